@@ -734,42 +734,10 @@ func (t *Table) ClearTable() {
 
 // CopyTable 复制表格
 func (t *Table) CopyTable() *Table {
-	// 深拷贝表格结构
-	newTable := &Table{
-		Properties: t.Properties,
-		Grid:       t.Grid,
-		Rows:       make([]TableRow, len(t.Rows)),
-	}
-
-	// 复制所有行和单元格
-	for i, row := range t.Rows {
-		newTable.Rows[i] = TableRow{
-			Properties: row.Properties,
-			Cells:      make([]TableCell, len(row.Cells)),
-		}
-
-		for j, cell := range row.Cells {
-			newTable.Rows[i].Cells[j] = TableCell{
-				Properties: cell.Properties,
-				Paragraphs: make([]Paragraph, len(cell.Paragraphs)),
-			}
-
-			// 复制段落内容
-			for k, para := range cell.Paragraphs {
-				newTable.Rows[i].Cells[j].Paragraphs[k] = Paragraph{
-					Properties: para.Properties,
-					Runs:       make([]Run, len(para.Runs)),
-				}
-
-				for l, run := range para.Runs {
-					newTable.Rows[i].Cells[j].Paragraphs[k].Runs[l] = Run{
-						Properties: run.Properties,
-						Text:       Text{Content: run.Text.Content},
-					}
-				}
-			}
-		}
-	}
+	// 深拷贝表格：属性、网格、行属性、单元格属性、段落属性和嵌套表格都必须复制，
+	// 仅复制行/单元格/段落/文本而共享属性指针时，修改副本（例如合并单元格会写入
+	// 单元格属性的 gridSpan/vMerge）会同时改变原表格。
+	newTable := (&TemplateEngine{}).cloneTable(t)
 
 	Info("表格复制成功")
 	return newTable
